@@ -49,6 +49,9 @@ def models():
         "Flow(Inverse(MAF ctx)|StandardNormal)": (lambda: perturb(FL.base.Flow(TR.InverseTransform(TR.MaskedAffineAutoregressiveTransform(3, 8, context_features=3, num_blocks=1)), D.StandardNormal([3])), 5), (3,), "required", 3, False),
         "Flow(NaiveLinear cached + affine|StandardNormal)": (lambda: perturb(FL.base.Flow(TR.CompositeTransform([TR.NaiveLinear(3, orthogonal_initialization=False, using_cache=True), TR.PointwiseAffineTransform(shift=torch.tensor([0.3, -0.2, 0.1]), scale=torch.tensor([1.5, 0.7, 2.0]))]), D.StandardNormal([3])), 7), (3,), "none", 0, False),
         "MaskedAutoregressiveFlow": (lambda: perturb(FL.MaskedAutoregressiveFlow(3, 8, num_layers=2, num_blocks_per_layer=1)), (3,), "none", 0, False),
+        "MaskedAutoregressiveFlow/random-permutations": (lambda: perturb(FL.MaskedAutoregressiveFlow(4, 8, num_layers=2, num_blocks_per_layer=1, use_random_permutations=True)), (4,), "none", 0, False),
+        "Flow(Logit T=1.5 + LU|StandardNormal)": (lambda: perturb(FL.base.Flow(TR.CompositeTransform([TR.Logit(temperature=1.5), TR.LULinear(3, identity_init=False)]), D.StandardNormal([3])), 9), (3,), "none", 0, False),
+        "Flow(1x1 convolution|StandardNormal [4,1,2])": (lambda: perturb(FL.base.Flow(TR.OneByOneConvolution(4, identity_init=False), D.StandardNormal([4, 1, 2])), 11), (4, 1, 2), "none", 0, False),
         "SimpleRealNVP": (lambda: perturb(FL.SimpleRealNVP(4, 8, num_layers=2, num_blocks_per_layer=1)), (4,), "none", 0, False),
         "StandardNormal": (lambda: D.StandardNormal([3]), (3,), "optional", 3, False),
         "ConditionalDiagonalNormal/marker": (lambda: D.ConditionalDiagonalNormal([2]), (2,), "required", 4, True),
@@ -75,12 +78,19 @@ def task(t):
     import torch
 
     torch.set_num_threads(1)
-    name, states, seed = t
+    name, states, seed = t[:3]
+    history = t[3] if len(t) > 3 else "fresh"
     build, event, cmode, width, marker = models()[name]
     out = {"n": 0, "fails": [], "drift": []}
     torch.manual_seed(seed)
     try:
         m = build()
+        if history == "after_load":
+            # the model that is used was built under another seed and received this one's checkpoint
+            torch.manual_seed(seed + 1001)
+            m2 = build()
+            m2.load_state_dict({k: v.clone() for k, v in m.state_dict().items()})
+            m = m2
     except Exception as e:
         out["drift"].append("%s cannot be built: %r" % (name, e))
         return out
@@ -100,7 +110,7 @@ def task(t):
         if (cmode == "none" and rows > 0) or (cmode == "required" and rows == 0):
             continue
         ctx = make_context(torch, rows, width, marker, g)
-        case = {"model": name, "op": op, "n": n, "rows": rows, "bs": (int(call["bs"]["v"]) if op == "sample" and str(call["bs"]["k"]) == "int" else None), "seed": seed}
+        case = {"model": name, "op": op, "n": n, "rows": rows, "bs": (int(call["bs"]["v"]) if op == "sample" and str(call["bs"]["k"]) == "int" else None), "seed": seed, "history": history}
         out["n"] += 1
         torch.manual_seed(seed + 5)
         try:
@@ -194,13 +204,13 @@ def main(run, replay=None):
         c = replay["case"]
         sts = [s for s in states if str(s["call"]["op"]) == c["op"] and str(s["call"]["n"]["k"]) == "int" and int(s["call"]["n"]["v"]) == c["n"] and int(s["call"]["rows"]) == c["rows"]
                and (c["op"] == "slp" or (c["bs"] is None and str(s["call"]["bs"]["k"]) == "none") or (c["bs"] is not None and str(s["call"]["bs"]["k"]) == "int" and int(s["call"]["bs"]["v"]) == c["bs"]))]
-        out = task((c["model"], sts, c["seed"]))
+        out = task((c["model"], sts, c["seed"], c.get("history", "fresh")))
         for f in out["fails"]:
             run.violation({"model": f["model"], "clause": f["clause"], "op": f["op"]}, "replayed: " + f["detail"], c)
         return
     fails = []
     seeds = (0, 1, 2) if thorough else (0,)
-    for out in pmap(task, [(n, states, run.seed * 10 + s) for n in models() for s in seeds]):
+    for out in pmap(task, [(n, states, run.seed * 10 + s, h) for n in models() for s in seeds for h in ("fresh", "after_load")]):
         run.evaluations += out["n"]
         fails += out["fails"]
         for d in out["drift"]:
@@ -213,11 +223,11 @@ def main(run, replay=None):
     run.sample({"call": "sample_and_log_prob(2, context with 3 rows)", "spec_pairs(generated under row, scored under row)": [[int(a), int(b)] for a, b in ex["out"]["pairs"]]})
     seen = set()
     for f in fails:
-        key = (f["model"], f["clause"], f["op"], f["n"], f["rows"], f["bs"])
+        key = (f["model"], f["clause"], f["op"], f["n"], f["rows"], f["bs"], f.get("history"))
         if key in seen:
             continue
         seen.add(key)
-        run.violation({"model": f["model"], "clause": f["clause"], "op": f["op"]}, "%s %s(n=%d, rows=%d, batch_size=%s): %s" % (f["model"], f["op"], f["n"], f["rows"], f["bs"], f["detail"]), {k: v for k, v in f.items() if k != "detail"})
+        run.violation({"model": f["model"], "clause": f["clause"], "op": f["op"]}, "%s%s %s(n=%d, rows=%d, batch_size=%s): %s" % (f["model"], " [built under another seed, this checkpoint loaded]" if f.get("history") == "after_load" else "", f["op"], f["n"], f["rows"], f["bs"], f["detail"]), {k: v for k, v in f.items() if k != "detail"})
     run.exhaustive = True
     run.assumptions = [
         "the distributional clause (empirical CDF convergence) is not decided by this technique: it is replaced by the push-forward identity under a harness-controlled generator plus C03 / C05; torch's generators are trusted",
